@@ -16,10 +16,12 @@ package gsfa
 //@ func debugln
 //@   mode int
 
-// Sum of the lengths of all lists. Not stated: vcgo has no way to name sum_k len(e[k]) over a map, and `count >= 0` is not
-// inductive (Go int addition wraps in the model; real lists cannot be that long). See the report.
+// Sum of the lengths of all lists: lensum(e) is the ghost sum of len(e[k]) over the present keys (kept by the map
+// operations), vislensum0 the partial sum over the keys visited by loop 0. No wrap-around below 2^62 entries.
 //@ func (EpochToTransactionObjects) Count
 //@   mode int
+//@   ensures lensum(e) <= 4611686018427387904 ==> result == lensum(e)
+//@   loop 0 invariant lensum(e) <= 4611686018427387904 ==> count == vislensum0 && 0 <= count && count <= lensum(e)
 
 //@ spec func slotsOK(m EpochToTransactionObjects, lo int) bool = forall e uint64 :: forall i int :: has(m, e) && 0 <= i && i < len(m[e]) ==> m[e][i] != nil && m[e][i].Slot >= lo
 //@ spec func slotsBelow(m EpochToTransactionObjects, hi int) bool = forall e uint64 :: forall i int :: has(m, e) && 0 <= i && i < len(m[e]) ==> m[e][i] != nil && m[e][i].Slot < hi
@@ -44,6 +46,8 @@ package gsfa
 //@   ensures result1 == nil ==> result0 != nil
 //@   ensures result1 == nil ==> slotsOK(result0, int(until))
 //@   ensures result1 == nil ==> slotsBelow(result0, int(before))
+//@   # never more than `limit` entries in total (for limits below 2^62; the streaming caller passes MaxInt = no limit)
+//@   ensures result1 == nil && 0 < limit && limit <= 4611686018427387904 ==> lensum(result0) <= limit
 //@   loop 0 invariant transactions != nil && fresh(transactions)
 //@   loop 0 invariant slotsOK(transactions, int(until))
 //@   loop 0 invariant sepLists(transactions)
@@ -59,6 +63,9 @@ package gsfa
 //@   loop 2 invariant sepLists(transactions)
 //@   loop 2 invariant allocLists(transactions)
 //@   loop 2 invariant slotsBelow(transactions, int(before))
+//@   loop 0 invariant 0 < limit && limit <= 4611686018427387904 ==> lensum(transactions) <= limit
+//@   loop 1 invariant 0 < limit && limit <= 4611686018427387904 ==> lensum(transactions) <= limit
+//@   loop 2 invariant 0 < limit && limit <= 4611686018427387904 ==> lensum(transactions) <= limit
 
 // ---- signature-bounded paging ----
 // sigOf(tx) is the pure (Transaction).Signature() of package ipldbindcode (first signature of the node).
@@ -69,7 +76,7 @@ package gsfa
 
 //@ func (*GsfaReaderMultiepoch) iterBeforeUntil
 //@   mode int
-//@   requires ctx != nil && fetcher != nil && validMulti(multi)
+//@   requires ctx != nil && fetcher != nil && validMulti(multi) && limit <= 4611686018427387904
 //@   requires allocated(multi.epochs) && (len(multi.epochs) > 0 ==> ref(multi.epochs) != 0) && (forall i int :: 0 <= i && i < len(multi.epochs) ==> allocated(multi.epochs[i]))
 //@   fncall fetcher ensures result1 == nil ==> result0 != nil
 //@   # (assumed) the byte buffer of a fetched node is not the caller's before/until signature array
@@ -82,6 +89,8 @@ package gsfa
 //@   # the walk stops right after `until`: a returned transaction carrying it is the last of its epoch's list
 //@   ensures result1 == nil && until != nil ==> untilLast(result0, *until)
 //@   ensures result1 == nil ==> keysAreEpochs(result0, multi)
+//@   # the page is cut to `limit` entries IN TOTAL (lensum = sum of the list lengths over all epochs)
+//@   ensures result1 == nil && limit > 0 ==> lensum(result0) <= limit
 //@   loop 0 invariant transactions != nil && fresh(transactions) && (before == nil ==> reachedBefore)
 //@   loop 0 invariant !reachedBefore ==> emptyMap(transactions)
 //@   loop 0 invariant until != nil ==> untilFree(transactions, *until)
@@ -102,6 +111,9 @@ package gsfa
 //@   loop 2 invariant allocLists(transactions)
 //@   loop 2 invariant keysAreEpochs(transactions, multi)
 //@   loop 2 invariant 0 <= readerIndex && readerIndex < len(multi.epochs) && multi.epochs[readerIndex] == index && index.epoch != nil && *index.epoch == epochNum
+//@   loop 0 invariant limit > 0 && lensum(transactions) <= limit
+//@   loop 1 invariant limit > 0 && lensum(transactions) <= limit
+//@   loop 2 invariant limit > 0 && lensum(transactions) <= limit
 
 // ---- constructor, epoch tag, public wrappers ----
 
@@ -124,12 +136,14 @@ package gsfa
 
 //@ func (*GsfaReaderMultiepoch) GetBeforeUntil
 //@   mode int
+//@   requires limit <= 4611686018427387904
 //@   requires ctx != nil && fetcher != nil && validMulti(multi)
 //@   requires allocated(multi.epochs) && (len(multi.epochs) > 0 ==> ref(multi.epochs) != 0) && (forall i int :: 0 <= i && i < len(multi.epochs) ==> allocated(multi.epochs[i]))
 //@   modifies allof([]uint8)
 //@   ensures result1 == nil ==> result0 != nil
 //@   ensures result1 == nil && until != nil ==> untilLast(result0, *until)
 //@   ensures result1 == nil ==> keysAreEpochs(result0, multi)
+//@   ensures result1 == nil && limit > 0 ==> lensum(result0) <= limit
 
 //@ func (*GsfaReaderMultiepoch) GetBeforeUntilSlot
 //@   mode int
